@@ -95,7 +95,7 @@ def run(ctx):
     G = 8
     plan = {
         "hist": [binp, "-phase", "hist", "-scenarios", hp, "-seed", str(ctx.seed), "-k", str(K), "-pools", "10" if quick else "150"],
-        "conc": [binr, "-phase", "conc", "-scenarios", hp, "-seed", str(ctx.seed + 1000), "-k", str(K), "-g", str(G), "-pools", "3" if quick else "40"],
+        "conc": [binr, "-phase", "conc", "-scenarios", hp, "-seed", str(ctx.seed + 1000), "-k", str(K), "-g", str(G), "-pools", "3" if quick else "30"],
         "share": [binr, "-phase", "share", "-scenarios", sp, "-seed", str(ctx.seed + 2000), "-g", str(G), "-rounds", "2" if quick else "4"],
     }
 
